@@ -168,6 +168,7 @@ Theorem c01_publication_orders_are_used :
   Gen_bounded_queue_orders.block_reload_order = 100%Z /\ Gen_bounded_queue_orders.block_cas_order = 100%Z /\
   Gen_bounded_queue_orders.set_version_order = 100%Z /\ Gen_bounded_queue_orders.version_getter_order = 100%Z.
 Proof. exact bq_param_orders_used. Qed.
+Print Assumptions c01_publication_orders_are_used.
 
 (* weakened orders: the racy executions exist (the check's search prints one when the source is weakened) *)
 Theorem c01_publication_weakened_refuted :
@@ -175,3 +176,4 @@ Theorem c01_publication_weakened_refuted :
   mp_general_safe (Some Release) false Relaxed Relaxed None = false /\ mp_general_safe None false Relaxed Relaxed (Some Acquire) = false.
 Proof. exact (conj bq_single_relaxed_store_refuted (conj bq_single_relaxed_load_refuted
               (conj bq_batch_no_acquire_fence_refuted bq_batch_no_release_fence_refuted))). Qed.
+Print Assumptions c01_publication_weakened_refuted.
